@@ -223,6 +223,7 @@ def run_exchange(ctx, rng, fe, ops, script, jitter=False):
     reuse_lists = len(ops) > 1 and rng.random() < 0.4
     res['strict'] = fe == 'v1' and rng.random() < 0.15
     res['busy'] = rng.random() < 0.15
+    res['neighbour'] = rng.random() < 0.3
     res['bystander'] = rng.choice([[C(b'localhost')], [C(b'localhost'), C(b'nfd')], [C(b'localhost'), C(b'nfd'), C(b'rib')], []]) if rng.random() < 0.2 else None
 
     async def main(S):
@@ -233,6 +234,15 @@ def run_exchange(ctx, rng, fe, ops, script, jitter=False):
             the_app = appv1.NDNApp(face=face, keychain=KeychainDigest())
         fw = Forwarder(face, fe, script, ctx, rng, S)
         res['fw'] = fw
+        neighbour = None
+        if res['neighbour']:
+            # another application object of the same process, created later, connected to ITS OWN forwarder: it registers nothing
+            face2 = RecFace()
+            neighbour = appv2.NDNApp(face=face2) if fe == 'v2' else appv1.NDNApp(face=face2, keychain=KeychainDigest())
+            res['fw2'] = Forwarder(face2, fe, ['200'] * 40, ctx, rng, S)
+            n_main = asyncio.ensure_future(neighbour.main_loop())
+            await asyncio.sleep(0)
+            ctx.event('exchange-beside-another-application-of-the-process')
         if res['strict']:
             # the application trusts nothing that its own validator does not accept - command responses included
             async def refuse(name, sig):
@@ -316,6 +326,9 @@ def run_exchange(ctx, rng, fe, ops, script, jitter=False):
             bystander.cancel()
         the_app.shutdown()
         await asyncio.wait_for(main_task, 5)
+        if neighbour is not None:
+            neighbour.shutdown()
+            await asyncio.wait_for(n_main, 5)
 
     if jitter:
         # hostile but legal clock: non-decreasing, advances 0..0.6 ms per reading on top of virtual time
@@ -345,6 +358,9 @@ def run_exchange(ctx, rng, fe, ops, script, jitter=False):
     for le in S.sentinel.all():
         ex = le.get('exception')
         ctx.report(f'background-error:{fe}:{type(ex).__name__ if ex else "?"}', f'{le.get("repr")}', w)
+    if res.get('fw2') is not None and res['fw2'].commands:
+        ctx.report(f'command-sent-on-another-application-connection:{fe}', f'{len(res["fw2"].commands)} command Interests went out on the connection of ANOTHER application '
+                   'object of the process (which registered nothing)', w)
     cmds = fw.commands
     if len(cmds) != len(ops):
         ctx.report(f'command-count:{fe}', f'{len(ops)} calls produced {len(cmds)} command Interests', w)
@@ -636,5 +652,6 @@ def run(ctx):
     check_parse_response(ctx, rng)
     for k in ['exchange-with-strict-application-validator', 'parse-response-with-unknown-elements', 'caller-edits-name-list-after-call', 'exchange', 'concurrent-exchange', 'route-connection', 'reconnect-within-one-millisecond', 'parse-response'] + [f'reply-{r}' for r in REPLIES]:
         ctx.need_event(k)
+    ctx.need_event('exchange-beside-another-application-of-the-process')
     ctx.assumptions = ['a 200 reply whose signature is bad counts as success in the current front-end (its commands use pass_all) and as failure in the legacy one',
                        'jitter clock: non-decreasing, 0..0.6 ms per reading (a legal wall clock)']
